@@ -356,9 +356,12 @@ def trivia(rng, need_space, rich):
     return " /* a */ // b\n /* c */ "
 
 
-def print_spec(decls, rng=None, rich=False):
+def print_spec(decls, rng=None, rich=False, bt_spans=None):
+    """bt_spans, if a list, receives the span of every basic_type token in order (the atomic
+    rule swallows the white space that follows the spelling)"""
     rng = rng or random.Random(0)
     out = []
+    bt_at = []
     if rich:
         out.append(trivia(rng, False, True))
     for d in decls:
@@ -367,6 +370,7 @@ def print_spec(decls, rng=None, rich=False):
             out.append(text)
             nxt = toks[i + 1] if i + 1 < len(toks) else None
             if kind == "BT":
+                bt_at.append(len(out) - 1)
                 # the atomic basic_type token needs whitespace right after it
                 out.append(rng.choice([" ", "\t", "\n", "  "]) if rich else " ")
                 if rich and rng.random() < 0.5:
@@ -379,9 +383,80 @@ def print_spec(decls, rng=None, rich=False):
                 out.append(trivia(rng, need, rich))
                 if need and rich and not out[-1]:
                     out.append(" ")
-        if not rich:
-            pass
-    return "".join(out)
+    text = "".join(out)
+    if bt_spans is not None:
+        offs, n = [], 0
+        for piece in out:
+            offs.append(n)
+            n += len(piece)
+        for idx in bt_at:
+            end = offs[idx] + len(out[idx])
+            while end < len(text) and text[end] in " \t\r\n":
+                end += 1
+            bt_spans.append(text[offs[idx]:end])
+    return text
+
+
+def sdecl_terms(decls, bt_spans, cstr):
+    """the declaration list as Coq terms of Source.sdecl; bt_spans as returned by print_spec"""
+    spans = iter(bt_spans)
+
+    def ty(t):
+        if t in GRAMMAR_BASIC:
+            return "(TTBasic %s)" % cstr(next(spans))
+        return "(TTIdent %s)" % cstr(t)
+
+    def btok(x):
+        return ("(BVal %s)" if x.isdigit() else "(BConst %s)") % cstr(x)
+
+    def arr(sfx):
+        if not sfx:
+            return "SNone"
+        if sfx[0] == "[":
+            return "(SFixed %s)" % btok(sfx[1:-1])
+        if sfx == "<>":
+            return "(SVar None)"
+        return "(SVar (Some %s))" % btok(sfx[1:-1])
+
+    def field(t, n, sfx, opt):
+        # token order in the text: type, name, suffix
+        tt = ty(t)
+        return "{| f_ty := %s; f_name := %s; f_arr := %s; f_opt := %s |}" % (tt, cstr(n), arr(sfx), "true" if opt else "false")
+
+    def arm(a):
+        if a[0] == "void":
+            return "ArmVoid"
+        return "(ArmData %s %s)" % (ty(a[1]), cstr(a[2]))
+
+    def group(labels, dflt, a):
+        return "{| g_labels := [%s]; g_default := %s; g_arm := %s |}" % (
+            "; ".join(btok(l) for l in labels), "true" if dflt else "false", arm(a))
+
+    out = []
+    for d in decls:
+        k = d[0]
+        if k == "const":
+            out.append("(KConst %s %s)" % (cstr(d[1]), cstr(d[2])))
+        elif k == "enum":
+            out.append("(KEnum %s [%s])" % (cstr(d[1]), "; ".join("(%s, %s)" % (cstr(m), cstr(v)) for m, v in d[2])))
+        elif k == "struct":
+            out.append("(KStruct %s [%s])" % (cstr(d[1]), "; ".join(field(*f) for f in d[2])))
+        elif k == "union":
+            _, name, disc, dname, groups, default = d
+            dt = ty(disc)
+            gs = [group(ls, False, a) for ls, a in groups]
+            if default is not None:
+                if default[0] == "falls":
+                    gs.append(group(default[1], True, default[2]))
+                else:
+                    gs.append(group([], True, default))
+            out.append("(KUnion %s %s %s [%s])" % (cstr(name), dt, cstr(dname), "; ".join(gs)))
+        elif k == "typedef":
+            _, t, name, sfx = d
+            out.append("(KTypedef %s %s %s)" % (ty(t), cstr(name), arr(sfx)))
+        else:
+            raise ValueError(k)
+    return "[" + "; ".join(out) + "]"
 
 
 # ---------------------------------------------------------------------------------------
